@@ -28,14 +28,7 @@ func (eng *Engine) refFunc(key string) *ssa.Function {
 	if eng.refSSA == nil {
 		return nil
 	}
-	for i := 0; i < len(key); i++ {
-		if key[i] == '.' {
-			if sp := eng.refSSA[key[:i]]; sp != nil {
-				return sp.Func(key[i+1:])
-			}
-		}
-	}
-	return nil
+	return eng.lookupFuncIn(eng.refProg, eng.refSSA, key)
 }
 
 func (r *Runner) equivObligations() []*LedgerEntry {
